@@ -144,3 +144,91 @@ package terminal
 //@   ensures  [node] n != nil ==> n.Pos() == pos && int(n.ReaderPos()) == int(pos) + len(op)
 //@   ensures  [fail] err != nil ==> err.Pos() == pos
 //@   ghost_return when err != nil && err.Pos() > parsley.GhostMaxFail :: parsley.GhostMaxFail = err.Pos()
+
+//@ closure Word$1(ctx *parsley.Context, lrc data.IntMap, pos parsley.Pos) (n parsley.Node, cp data.IntSet, err parsley.Error)
+//@   captures (word string, schema interface{}, token string, value interface{}, notFoundErr parsley.NotFoundError)
+//@   requires word != "" && forall i int :: 0 <= i && i < len(word) ==> word[i] < 0x80
+//@   include  parsley.Parser.Parse
+//@   ensures  [total] (n == nil) != (err == nil) && len(data.ElemsOf(cp)) == 0
+//@   ensures  [node] n != nil ==> n.Pos() == pos && int(n.ReaderPos()) == int(pos) + len(word)
+//@   ensures  [fail] err != nil ==> err.Pos() == pos
+//@   ghost_return when err != nil && err.Pos() > parsley.GhostMaxFail :: parsley.GhostMaxFail = err.Pos()
+
+//@ closure Bool$1(ctx *parsley.Context, lrc data.IntMap, pos parsley.Pos) (n parsley.Node, cp data.IntSet, err parsley.Error)
+//@   captures (trueStr string, schema interface{}, falseStr string, notFoundErr parsley.NotFoundError)
+//@   requires trueStr != "" && falseStr != "" && (forall i int :: 0 <= i && i < len(trueStr) ==> trueStr[i] < 0x80) && (forall i int :: 0 <= i && i < len(falseStr) ==> falseStr[i] < 0x80)
+//@   include  parsley.Parser.Parse
+//@   ensures  [total] (n == nil) != (err == nil) && len(data.ElemsOf(cp)) == 0
+//@   ensures  [node] n != nil ==> n.Pos() == pos && (int(n.ReaderPos()) == int(pos) + len(trueStr) || int(n.ReaderPos()) == int(pos) + len(falseStr))
+//@   ensures  [fail] err != nil ==> err.Pos() == pos
+//@   ghost_return when err != nil && err.Pos() > parsley.GhostMaxFail :: parsley.GhostMaxFail = err.Pos()
+
+//@ closure Nil$1(ctx *parsley.Context, lrc data.IntMap, pos parsley.Pos) (n parsley.Node, cp data.IntSet, err parsley.Error)
+//@   captures (nilStr string, schema interface{}, notFoundErr parsley.NotFoundError)
+//@   requires nilStr != "" && forall i int :: 0 <= i && i < len(nilStr) ==> nilStr[i] < 0x80
+//@   include  parsley.Parser.Parse
+//@   ensures  [total] (n == nil) != (err == nil) && len(data.ElemsOf(cp)) == 0
+//@   ensures  [node] n != nil ==> n.Pos() == pos && int(n.ReaderPos()) == int(pos) + len(nilStr)
+//@   ensures  [fail] err != nil ==> err.Pos() == pos
+//@   ghost_return when err != nil && err.Pos() > parsley.GhostMaxFail :: parsley.GhostMaxFail = err.Pos()
+
+//@ -- the constant patterns used below compile and do not match the empty input (trusted; the suite runs each)
+//@ axiom [re-integer] text.ValidPattern("[-+]?(?:[1-9][0-9]*|0[xX][0-9a-fA-F]+|0[0-7]*)")
+//@ axiom [re-float] text.ValidPattern("[-+]?[0-9]*\\.[0-9]+(?:[eE][-+]?[0-9]+)?")
+//@ axiom [re-duration] text.ValidPattern("[-+]?(?:[0-9]+(?:\\.[0-9]+)?(?:ns|us|µs|μs|ms|s|m|h))+")
+//@ axiom [re-char] text.ValidPattern(`\\[abfnrtv']|\\x[0-9a-fA-F]{2,2}|\\u[0-9a-fA-F]{4,4}|\\U[0-9a-fA-F]{8,8}|[^']`)
+//@ axiom [re-backquote] text.ValidPattern("[^`]+")
+
+//@ -- conversions of the standard library, as uninterpreted functions of the text converted
+//@ abstract func intOf(s string) int64
+//@ abstract func floatOf(s string) float64
+//@ abstract func durationOf(s string) time.Duration
+//@ abstract func charOf(s string) rune
+
+//@ assume func strconv.ParseInt(s string, base int, bitSize int) (i int64, err error)
+//@   ensures err == nil ==> i == intOf(s)
+//@   ensures err != nil ==> !typeis[parsley.Error](err)
+//@   assigns nothing
+//@ assume func strconv.ParseFloat(s string, bitSize int) (f float64, err error)
+//@   ensures err == nil ==> f == floatOf(s)
+//@   assigns nothing
+//@ assume func time.ParseDuration(s string) (d time.Duration, err error)
+//@   ensures err == nil ==> d == durationOf(s)
+//@   ensures err != nil ==> !typeis[parsley.Error](err)
+//@   assigns nothing
+//@ assume func strconv.UnquoteChar(s string, quote byte) (value rune, multibyte bool, tail string, err error)
+//@   requires len(s) >= 1
+//@   ensures err == nil ==> len(tail) < len(s) && value == charOf(s) && 0 <= value && value <= 0x10FFFF
+//@   ensures [expand] err == nil && (s[0] < 0x80 || validRuneStart(s)) ==> len(string(value)) <= len(s) - len(tail)
+//@   assigns nothing
+//@ -- s starts with a well-formed UTF-8 sequence
+//@ abstract func validRuneStart(s string) bool
+//@ assume func fmt.Sprintf(format string, a ...interface{}) (r string)
+//@   assigns nothing
+
+//@ closure Integer$1(ctx *parsley.Context, lrc data.IntMap, pos parsley.Pos) (n parsley.Node, cp data.IntSet, err parsley.Error)
+//@   captures (notFoundErr parsley.NotFoundError, schema interface{})
+//@   include  parsley.Parser.Parse
+//@   ensures  [total] (n == nil) != (err == nil) && len(data.ElemsOf(cp)) == 0
+//@   ensures  [node] n != nil ==> n.Pos() == pos && n.ReaderPos() >= pos
+//@   ensures  [value] n != nil ==> typeis[*IntegerNode](n) && n.(*IntegerNode).value == intOf(strof(text.DataOf(ctx.Reader().(*text.Reader))[text.CurOf(ctx.Reader().(*text.Reader), pos):text.CurOf(ctx.Reader().(*text.Reader), n.ReaderPos())]))
+//@   ensures  [fail] err != nil ==> err.Pos() == pos
+//@   ghost_return when err != nil && err.Pos() > parsley.GhostMaxFail :: parsley.GhostMaxFail = err.Pos()
+
+//@ closure Float$1(ctx *parsley.Context, lrc data.IntMap, pos parsley.Pos) (n parsley.Node, cp data.IntSet, err parsley.Error)
+//@   captures (schema interface{}, notFoundErr parsley.NotFoundError)
+//@   include  parsley.Parser.Parse
+//@   ensures  [total] (n == nil) != (err == nil) && len(data.ElemsOf(cp)) == 0
+//@   ensures  [node] n != nil ==> n.Pos() == pos && n.ReaderPos() >= pos
+//@   ensures  [value] n != nil ==> typeis[*FloatNode](n) && n.(*FloatNode).value == floatOf(strof(text.DataOf(ctx.Reader().(*text.Reader))[text.CurOf(ctx.Reader().(*text.Reader), pos):text.CurOf(ctx.Reader().(*text.Reader), n.ReaderPos())]))
+//@   ensures  [fail] err != nil ==> err.Pos() == pos
+//@   ghost_return when err != nil && err.Pos() > parsley.GhostMaxFail :: parsley.GhostMaxFail = err.Pos()
+
+//@ closure TimeDuration$1(ctx *parsley.Context, lrc data.IntMap, pos parsley.Pos) (n parsley.Node, cp data.IntSet, err parsley.Error)
+//@   captures (schema interface{}, notFoundErr parsley.NotFoundError)
+//@   include  parsley.Parser.Parse
+//@   ensures  [total] (n == nil) != (err == nil) && len(data.ElemsOf(cp)) == 0
+//@   ensures  [node] n != nil ==> n.Pos() == pos && n.ReaderPos() >= pos
+//@   ensures  [value] n != nil ==> typeis[*TimeDurationNode](n) && n.(*TimeDurationNode).value == durationOf(strof(text.DataOf(ctx.Reader().(*text.Reader))[text.CurOf(ctx.Reader().(*text.Reader), pos):text.CurOf(ctx.Reader().(*text.Reader), n.ReaderPos())]))
+//@   ensures  [fail] err != nil ==> err.Pos() == pos
+//@   ghost_return when err != nil && err.Pos() > parsley.GhostMaxFail :: parsley.GhostMaxFail = err.Pos()
